@@ -438,20 +438,54 @@ def unit_override(args: dict) -> dict:
     from xstate_statemachine.actions import BUILTIN_ACTION_ALIASES
     import asyncio
     out: Dict[str, Any] = {"kind": "override", "cases": 0, "violations": [], "errors": [], "states": 0, "samples": []}
-    for name in sorted(BUILTIN_ACTION_ALIASES):
-        for how in ("explicit", "module"):
-            for eng in ("sync", "async"):
+    positions = ("on", "entry", "exit", "always", "after_list", "state_onDone", "invoke_onDone", "invoke_onError")
+    jobs = [(name, how, eng, positions[(i + j + k) % len(positions)] if (how, eng) != ("explicit", "sync") else "on")
+            for i, name in enumerate(sorted(BUILTIN_ACTION_ALIASES)) for j, how in enumerate(("explicit", "module"))
+            for k, eng in enumerate(("sync", "async"))]
+    # every position at least once per (how, engine) for a few aliases
+    jobs += [(name, how, eng, pos) for name in ("log", "assign", "raise", "xstate.sendParent") for how in ("explicit", "module")
+             for eng in ("sync", "async") for pos in positions]
+    if True:
+        if True:
+            for (name, how, eng, pos) in jobs:
                 ran: List[str] = []
 
                 def impl(interpreter, context, event, action_def):
                     ran.append("user")
-                cfg = {"id": "m", "initial": "a", "context": {"n": 0},
-                       "states": {"a": {"on": {"E": {"actions": [{"type": name, "params": {"event": "X", "assignment": {"n": 5}, "to": "nobody",
-                                                                                          "id": "x", "label": "l"}}]}}}}}
-                case = {"op": "override", "builtin": name, "via": how, "engine": eng}
+
+                def svc_ok(interpreter, context, event):
+                    return "ok"
+
+                def svc_bad(interpreter, context, event):
+                    raise RuntimeError("planned service failure")
+                act = {"type": name, "params": {"event": "X", "assignment": {"n": 5}, "to": "nobody", "id": "x", "label": "l"}}
+                a_state: Dict[str, Any] = {"on": {"E": {"target": "b"}}}
+                b_state: Dict[str, Any] = {}
+                services = {}
+                if pos == "on":
+                    a_state = {"on": {"E": {"actions": [act]}}}
+                elif pos == "entry":
+                    b_state = {"entry": [act]}
+                elif pos == "exit":
+                    a_state = {"exit": act, "on": {"E": "b"}}
+                elif pos == "always":
+                    b_state = {"always": {"target": "c", "actions": [act]}}
+                elif pos == "after_list":
+                    a_state = {"on": {"E": [{"target": "b", "guard": "never"}, {"actions": [act]}]}}
+                elif pos == "state_onDone":
+                    b_state = {"initial": "f", "states": {"f": {"type": "final"}}, "onDone": {"target": "c", "actions": [act]}}
+                elif pos == "invoke_onDone":
+                    b_state = {"invoke": {"src": "svcOk", "onDone": {"target": "c", "actions": [act]}}}
+                    services = {"svcOk": svc_ok}
+                elif pos == "invoke_onError":
+                    b_state = {"invoke": {"src": "svcBad", "onError": {"target": "c", "actions": act}}}
+                    services = {"svcBad": svc_bad}
+                cfg = {"id": "m", "initial": "a", "context": {"n": 0}, "states": {"a": a_state, "b": b_state, "c": {}}}
+                case = {"op": "override", "builtin": name, "via": how, "engine": eng, "position": pos}
                 try:
                     if how == "explicit":
-                        m = create_machine(cfg, logic=MachineLogic(actions={name: impl}))
+                        m = create_machine(cfg, logic=MachineLogic(actions={name: impl}, guards={"never": lambda c, e: False},
+                                                                   services=services))
                     else:
                         if not name.isidentifier():
                             continue
@@ -459,6 +493,13 @@ def unit_override(args: dict) -> dict:
                         impl.__name__ = name
                         impl.__module__ = mod.__name__
                         setattr(mod, name, impl)
+
+                        def never(context, event):
+                            return False
+                        for fn_name, fn in (("never", never), ("svcOk", svc_ok), ("svcBad", svc_bad)):
+                            fn.__module__ = mod.__name__
+                            fn.__name__ = fn_name
+                            setattr(mod, fn_name, fn)
                         m = create_machine(cfg, logic_modules=[mod])
                     out["cases"] += 1
                     if eng == "sync":
@@ -472,7 +513,7 @@ def unit_override(args: dict) -> dict:
                             it = Interpreter(m)
                             await it.start()
                             await it.send("E")
-                            for _ in range(20):
+                            for _ in range(60):
                                 await asyncio.sleep(0)
                             c = dict(it.context)
                             await it.stop()
